@@ -29,6 +29,7 @@ import (
 	"math/big"
 
 	"github.com/parquet-go/parquet-go"
+	"github.com/parquet-go/parquet-go/deprecated"
 )
 
 // c10TV: a decoded key value; which field is meaningful depends on the kind.
@@ -57,6 +58,11 @@ type c10Kind struct {
 	val    func(t c10TV) parquet.Value // the parquet value holding t
 	read   func(v parquet.Value) c10TV // the Go value of a parquet value of kind phys
 	inv    map[string]int64            // byte strings: the ordinals (less the bias) of the images decoded so far
+}
+
+// c10Int96: the INT96 value of a decoded 12-byte big-endian image (word 2 is the most significant one).
+func c10Int96(t c10TV) deprecated.Int96 {
+	return deprecated.Int96{0: binary.BigEndian.Uint32(t.b[8:]), 1: binary.BigEndian.Uint32(t.b[4:]), 2: binary.BigEndian.Uint32(t.b[0:])}
 }
 
 // ---- hashing of an ordinal (the low bits of the images) -----------------------
@@ -325,6 +331,37 @@ func c10InitKinds() {
 		tv: func(o int64) c10TV { return c10TV{b: signExt(i64(o).i, 9)} }, val: flval, read: bread})
 	add(&c10Kind{name: "decimal(flba16)", node: func() parquet.Node { return parquet.Decimal(3, 38, parquet.FixedLenByteArrayType(16)) }, phys: parquet.FixedLenByteArray, lo: lo, hi: hi, order: c10OrdDecimal,
 		tv: func(o int64) c10TV { return c10TV{b: signExt(i64(o).i, 16)} }, val: flval, read: bread})
+	// -- INT96: the format defines no order for it (its statistics are not to be trusted); the library sorts
+	// INT96 columns as signed 96-bit integers, most significant word last (deprecated.Int96.Less: "a signed
+	// comparison between the two operands"): that documented order is the order of the kind.  The image is
+	// spread over the three 32-bit words so that every word decides some comparisons: with u = o + 2^15,
+	// the high word holds u>>2 (signed, in its top 14 bits) over a hash of it, bit 31 of the middle word
+	// is bit 1 of u, bit 31 of the low word is bit 0 of u (their other 31 bits are hashes of u>>1 and u):
+	// neighbouring ordinals agree on the higher words and differ in the TOP bit of a lower word, which a
+	// signed comparison of the lower words, a comparison of the high word alone or an unsigned comparison
+	// of the high word gets wrong.  Decoded value: the 12 bytes, big-endian, two's complement.
+	add(&c10Kind{name: "int96", node: leaf(parquet.Int96Type), phys: parquet.Int96, lo: lo, hi: hi, order: c10OrdDecimal,
+		tv: func(o int64) c10TV {
+			u := uint64(o + 32768)
+			a := int64(u>>2) - 8192
+			w2 := uint32(int32(a))<<18 | uint32(c10Mix(a)&(1<<18-1))
+			w1 := uint32(u>>1&1)<<31 | uint32(c10Mix(int64(u>>1)+1<<20)&(1<<31-1))
+			w0 := uint32(u&1)<<31 | uint32(c10Mix(int64(u)+1<<21)&(1<<31-1))
+			b := make([]byte, 12)
+			binary.BigEndian.PutUint32(b[0:], w2)
+			binary.BigEndian.PutUint32(b[4:], w1)
+			binary.BigEndian.PutUint32(b[8:], w0)
+			return c10TV{b: b}
+		},
+		val:  func(t c10TV) parquet.Value { return parquet.Int96Value(c10Int96(t)) },
+		read: func(v parquet.Value) c10TV {
+			x := v.Int96()
+			b := make([]byte, 12)
+			binary.BigEndian.PutUint32(b[0:], x[2])
+			binary.BigEndian.PutUint32(b[4:], x[1])
+			binary.BigEndian.PutUint32(b[8:], x[0])
+			return c10TV{b: b}
+		}})
 	// variable length: o*|o|*2^33 + 33 hashed bits in the shortest two's complement form (3..8 bytes)
 	add(&c10Kind{name: "decimal(bytearray)", node: func() parquet.Node { return parquet.Decimal(3, 19, parquet.ByteArrayType) }, phys: parquet.ByteArray, lo: -32767, hi: hi, order: c10OrdDecimal,
 		tv: func(o int64) c10TV {
